@@ -320,6 +320,8 @@ thread_local! { static PARSER: std::cell::RefCell<String> = Default::default(); 
 // =============================================================================================== C14
 pub fn c14(cx: &Cx) -> i32 {
     let mut rep = cx.report("C14");
+    // what is stripped is decided by the helper-kind set: it must have been filled from the item's own entries
+    crate::misc::kinds_filled_rule(cx, &mut rep);
     let ix = &cx.ix;
     let cg = crate::roles::CallGraph::build(ix);
     // ---- DM-strip-set: which attribute names are removed, as a function of the derived set
